@@ -302,7 +302,7 @@ def replay(rec):
 
 LEVEL_TEXT = ("Every Timer method is executed symbolically from an arbitrary state satisfying the class invariant "
               "(start/stop instants recorded on a monotone clock) against an adversarial wall clock; postconditions are "
-              "the property statement over ghost elapsed time. Induction over the invariant covers every call history.")
+              "the property statement over ghost elapsed time. Induction over the invariant covers every call history. The two callers: the DUL reactor starts the idle timer once and restarts it exactly when data arrived; the association reactor decides the network timeout by that timer.")
 LEVEL_NOTE = ("trusted: pyvc, z3 (LRA), the clock model (monotonic = real time + constant, wall = arbitrary), exact reals "
               "instead of floats. Callers of Timer (dul/association) are covered by C05/C08 obligations, not here.")
 TECHNIQUE = "deductive: class invariant + method contracts on Timer with ghost real-time clock, VCs from the AST, z3 LRA"
